@@ -173,6 +173,37 @@ func init() {
 				"eventNotifier.PublishVIPAuthEvent":                      {lean: "()", ret: []string{}, args: []int{1}, effect: "KM.GoTypes.PollEffect.publish"},
 				"w.WriteHeader":                                          {lean: "()", ret: []string{}, effect: "KM.GoTypes.PollEffect.status"}},
 			retLean: "Unit × List KM.GoTypes.PollEffect"},
+		// C09 / C06 / C08: the two gate helpers most handlers start with, and the admin+U2F predicate
+		glTarget{pkg: "cmd/keymasterd", name: "sendFailureToClientIfLocked", group: "Gate",
+			binders:   "(signerNil : Bool)",
+			paramLean: map[string]string{"w": "", "r": ""},
+			traceLean: "KM.GoTypes.GateEffect",
+			paths: map[string][2]string{
+				"(state.Signer == nil)":          {"signerNil", "bool"},
+				"http.StatusInternalServerError": {"(500 : Nat)", "int"}},
+			externs: map[string]glExtern{
+				"state.Mutex.Lock":           {lean: "()", ret: []string{}, args: []int{}, effect: "KM.GoTypes.GateEffect.lock"},
+				"state.Mutex.Unlock":         {lean: "()", ret: []string{}, args: []int{}, effect: "KM.GoTypes.GateEffect.unlock"},
+				"setSecurityHeaders":         {lean: "()", ret: []string{}, args: []int{}, effect: "KM.GoTypes.GateEffect.securityHeaders"},
+				"state.writeFailureResponse": {lean: "()", ret: []string{}, args: []int{2}, effect: "KM.GoTypes.GateEffect.fail"}},
+			retLean: "Bool × List KM.GoTypes.GateEffect"},
+		glTarget{pkg: "cmd/keymasterd", name: "sendFailureToClientIfNonAdmin", group: "Gate", natInts: true,
+			binders:   "(ext : KM.GoTypes.AdminGateExt) (webUILevel : Nat)",
+			paramLean: map[string]string{"w": "", "r": ""},
+			traceLean: "KM.GoTypes.GateEffect",
+			paths: map[string][2]string{
+				"state.getRequiredWebUIAuthLevel()": {"webUILevel", "int"},
+				"http.StatusUnauthorized":           {"(401 : Nat)", "int"}},
+			externs: map[string]glExtern{
+				"state.sendFailureToClientIfLocked": {lean: "ext.locked", ret: []string{"bool"}, args: []int{}},
+				"state.checkAuth":                   {lean: "ext.checkAuth", ret: []string{"authInfo", "error"}, args: []int{2}},
+				"state.IsAdminUser":                 {lean: "ext.isAdmin", ret: []string{"bool"}},
+				"state.writeFailureResponse":        {lean: "()", ret: []string{}, args: []int{2}, effect: "KM.GoTypes.GateEffect.fail"}},
+			retLean: "(Bool × Option KM.GoTypes.authInfo) × List KM.GoTypes.GateEffect"},
+		glTarget{pkg: "cmd/keymasterd", name: "IsAdminUserAndU2F", group: "Gate", natInts: true,
+			binders: "(isAdmin : List Char → Bool)",
+			paths:   map[string][2]string{"state.IsAdminUser(user)": {"(isAdmin user)", "bool"}},
+			retLean: "Bool"},
 		// C09: unsealCA — the whole injection step under the mutex
 		glTarget{pkg: "cmd/keymasterd", name: "unsealCA", group: "Seal",
 			binders:   "(ext : KM.GoTypes.SealExt) (signerSet : Bool) (hasEdFile : Bool)",
